@@ -2490,6 +2490,8 @@ class Wallet(object):
                     self.key(parent_id)
                 topkey = self._key_objects[new_keys[0].parent_id]
                 parent_key = topkey.key()
+                parent_key.witness_type = witness_type
+                parent_key.encoding = encoding
                 new_key_id = self.session.query(DbKey.id).order_by(DbKey.id.desc()).first()[0] + 1
                 hardened_child = False
                 if fullpath[-1].endswith("'"):
